@@ -80,6 +80,7 @@ def strategy_(draw: Any) -> Case:
         base_ne_proto=flip("base_ne_proto", 1),
         subdirs=True,
         odd_file_names=True,
+        long_names=True,
         extensible=draw(st.booleans()),
         bits_budget=300,
         big=False,
